@@ -188,6 +188,26 @@ Section Sess.
   Definition clean (s : st) (lg : list event) : st :=
     upd s (d_from s) (d_rcpts s) 0 None false (remove1 (s_sender s) (s_permits s)) (n_txn s) (n_inst s) lg.
 
+  (* LMTP replies.  The session knows the recipients it accepted itself (as often as it accepted
+     them); the driver (go-smtp) may list more - those of a session replaced by a repeated LHLO.
+     go-smtp hands the statuses it was given for an address to the occurrences of that address in
+     its own list, in order, and fills what is left with the result of LMTPData ([rest]). *)
+  Definition sess_count (open : list od) (r : N) : nat :=
+    match rev (route_of c r) with
+    | [] => 0%nat
+    | t :: _ => match find (fun o => od_t o =? t) open with
+                | Some o => count_occ_b N.eqb (od_rcpts o) r
+                | None => 0%nat
+                end
+    end.
+  Fixpoint lmtp_replies (open : list od) (v : N -> bool) (rest : bool) (l seen : list N) : list (N * bool) :=
+    match l with
+    | [] => []
+    | r :: t =>
+        (r, if Nat.ltb (count_occ_b N.eqb seen r) (sess_count open r) then v r else rest)
+          :: lmtp_replies open v rest t (r :: seen)
+    end.
+
   Definition do_data (s : st) (readable : bool) : st * reply :=
     if negb (d_from s) || match d_rcpts s with [] => true | _ => false end then (s, RFail)
     else
@@ -201,12 +221,14 @@ Section Sess.
             (* statuses are set for the recipients of the open deliveries; the driver may still
                list recipients of a session replaced by a repeated LHLO: they get the (nil) result *)
             (drv_reset (clean s (log s ++ ev)),
-             RData (map (fun r => (r, negb (mem r (flat_map od_rcpts (pd_open d))))) (d_rcpts s)))
+             RData (lmtp_replies (pd_open d) (fun r => negb (mem r (flat_map od_rcpts (pd_open d)))) true (d_rcpts s) []))
           else
             let '(ev1, open', sts) := body_na (pd_txn d) (pd_open d) in
             let '(ev2, cok) := commit_all (pd_txn d) open' false false in
             (drv_reset (clean s (log s ++ ev1 ++ ev2)),
-             RData (map (fun r => (r, match alookup N.eqb r sts with Some b => b | None => cok end)) (d_rcpts s)))
+             (* one reply per accepted RCPT, held back until Commit has returned: the first failure
+                reported for the recipient by any of its targets, otherwise the result of Commit *)
+             RData (lmtp_replies (pd_open d) (fun r => forallb (fun x : N * bool => negb (fst x =? r) || snd x) sts && cok) cok (d_rcpts s) []))
         else
           if chk_body c then (drv_reset (clean s (log s ++ abort_events d)), RFail)
           else
